@@ -229,6 +229,59 @@ pub fn c06_sessions(pools: &Pools, r: &mut Report) {
     }
 }
 
+/// ONE builder whose footer is changed between builds: F, then the empty footer, then G — each token must carry exactly the footer in force
+pub fn builder_footer_changes(pools: &Pools, r: &mut Report) {
+    for &p in &ALL {
+        let key = pools.key(p, 0);
+        let plan: [(&str, Option<&str>); 4] = [("first-footer", Some("first-footer")), ("", None), ("second-footer", Some("second-footer")), (" ", Some(" "))];
+        for layer in [Layer::Generic, Layer::Batteries] {
+            let toks: Vec<Out<String>> = if layer == Layer::Generic {
+                let mut ops = vec![GOp::Set(Claim::Custom("data".into(), json!("footer changes")))];
+                for (f, _) in plan {
+                    ops.push(GOp::Footer(f.to_string()));
+                    ops.push(GOp::Build);
+                }
+                generic_run(p, &key, &ops)
+            } else {
+                let mut ops = vec![BOp::Set(Claim::Custom("data".into(), json!("footer changes")))];
+                for (f, _) in plan {
+                    ops.push(BOp::Footer(f.to_string()));
+                    ops.push(BOp::Build);
+                }
+                batteries_run(p, &key, &ops)
+            };
+            for (n, (t, (set, want))) in toks.iter().zip(plan).enumerate() {
+                r.evaluations += 1;
+                let tag = format!("{}/{}", p.name(), layer.name());
+                let replay = json!({"cmd": "C05-reuse", "note": "builder footer-change case: re-run the check", "p": p.name(), "layer": layer.name(), "build_no": n + 1});
+                let tok = match t {
+                    Out::Ok(t) => t,
+                    o => {
+                        r.violation(format!("C05 builder-footer-change build-failed {}", tag), format!("{}: build #{} failed: {}", tag, n + 1, o.brief()), replay);
+                        continue;
+                    }
+                };
+                let segs: Vec<&str> = tok.split('.').collect();
+                let seg_ok = match want {
+                    Some(f) => segs.len() == 4 && segs[3] == util::b64(f.as_bytes()),
+                    None => segs.len() == 3 || (segs.len() == 4 && segs[3].is_empty()),
+                };
+                let opens = open_any(layer, p, &key, tok, want, None).is_ok();
+                if !seg_ok || !opens {
+                    r.violation(
+                        format!("C05 builder-footer-change {} build={}", tag, n + 1),
+                        format!("{}: ONE builder, set_footer({:?}) then build #{}: footer segment exact = {}, opens with that footer = {}; token tail {:?}", tag, set, n + 1, seg_ok, opens, util::clip(&tok[tok.len().saturating_sub(40)..], 40)),
+                        replay,
+                    );
+                } else {
+                    r.count(&format!("{} builder footer changed: token #{} carries the footer in force", tag, n + 1));
+                    r.distinct(format!("{}|footer-change|{}", tag, n));
+                }
+            }
+        }
+    }
+}
+
 /// builders used more than once: every token must carry the footer / be bound to the assertion that was set
 pub fn builder_reuse(prop: &str, pools: &Pools, r: &mut Report) {
     let protos: Vec<P> = if prop == "C06" { vec![P::V3L, P::V4L, P::V3P, P::V4P] } else { ALL.to_vec() };
@@ -237,8 +290,13 @@ pub fn builder_reuse(prop: &str, pools: &Pools, r: &mut Report) {
         let footer = "reused-footer";
         let ia = if p.has_assertion() { Some("reused-assertion") } else { None };
         let claims = vec![ClaimOp::Set(Claim::Custom("data".into(), json!("reuse")))];
-        for layer in [Layer::Generic, Layer::Batteries] {
-            let toks: Vec<Out<String>> = if layer == Layer::Generic {
+        for layer in [Layer::Core, Layer::Generic, Layer::Batteries] {
+            let toks: Vec<Out<String>> = if layer == Layer::Core {
+                // ONE core builder, configured once, sealed from three times
+                let mut rng = Rng::new(7, "reuse-nonces", p as u64);
+                let nonces: Vec<Vec<u8>> = (0..3).map(|_| rng.bytes(32)).collect();
+                core_seal_many(p, &key, &nonces, JSON_MSG, Some(footer), ia, false)
+            } else if layer == Layer::Generic {
                 generic_seal_many(p, &key, &claims, Some(footer), ia, 3, true)
             } else {
                 let mut ops = vec![BOp::Set(Claim::Custom("data".into(), json!("reuse"))), BOp::Footer(footer.into())];
@@ -370,7 +428,7 @@ pub fn run_c04(tier: &str, seed: u64) -> Report {
         let key = pools.key(p, b % pools.count(p));
         let footer = [None, Some("ftr"), Some("")][b % 3];
         let ia = if p.has_assertion() { [None, Some("ia")][b % 2] } else { None };
-        let msg = if layer == Layer::Core && b % 2 == 1 { "plain text message" } else { JSON_MSG };
+        let msg = if layer == Layer::Core { ["", JSON_MSG, "x", "plain text message", JSON_MSG, ""][b % 6] } else { JSON_MSG };
         let token = match seal_at(layer, p, &key, &mut rng, msg, footer, ia) {
             Out::Ok(t) => t,
             o => {
@@ -657,6 +715,7 @@ pub fn run_c05(tier: &str, seed: u64) -> Report {
     let mut rs = Report::new();
     c05_sessions(&pools, &mut rs);
     builder_reuse("C05", &pools, &mut rs);
+    builder_footer_changes(&pools, &mut rs);
     total.merge(rs);
     for &p in &ALL {
         total.require(&format!("{}/generic session parses as expected", p.name()), 8);
